@@ -175,8 +175,11 @@ def r4(ctx):
     arr, eps = Sym(fi.params[0]), Sym(fi.params[1])
     rt = b.return_term()
     rets = [n for n in Resolver.walk_own(fi.node) if isinstance(n, ast.Return)]
+    same = {v.key for _g, v in tm.pieces_of(rt)}
     if isinstance(rt, Sym):
         name = rt.name
+    elif len(same) == 1 and all(isinstance(v, Sym) for _g, v in tm.pieces_of(rt)):
+        name = tm.pieces_of(rt)[0][1].name      # several returns of the same local (an early exit): the store's guard decides
     elif len(rets) == 1 and isinstance(rets[0].value, ast.Name):
         name = rets[0].value.id        # the returned local, whatever expression first bound it
     else:
@@ -277,6 +280,8 @@ def r6(ctx):
     # (who else is refilled, and when repopulation must *not* run, is C08's / C09's business)
     ctx.sub(c08.r2, only=("recipient:covers", "recipient:ids", "recipient:loop"))
     c09.lifecycle(ctx, {"refill-before-fit"})     # along every cyclic path, not just inside one round
+    # a donor measured on stale sizes can be drained below 2 points itself
+    ctx.sub(c08.r6, only=("commit:search-on-copy", "commit:in-loop"))
 
 
 @rule("C03", "R7", "FLOW", "aggregates over an empty cluster are guarded (no NaN mean / median in the result)")
